@@ -358,7 +358,17 @@ def run(ctx):
             gpath = os.path.join(tmp, f'clip_{n}.geojson')
             open(gpath, 'w').write(json.dumps(mapping(tri)))
             clip_args.append((gpath, tri))
-            for arg, geom in (clip_args if not quick else rng.sample(clip_args, 2)):
+            # a region whose bounding box encloses the whole model although the region itself does not: half the domain
+            # cut along the diagonal, and two far corners
+            bx0, bx1, by0, by1 = min(xs) - 1.0, max(xs) + 1.0, min(ys) - 1.0, max(ys) + 1.0
+            half = shapely.Polygon([(bx0, by0), (bx1, by0), (bx0, by1)])
+            corners = shapely.MultiPolygon([box(bx0, by0, bx0 + 1.5, by0 + 1.5), box(bx1 - 1.5, by1 - 1.5, bx1, by1)])
+            wide = [(json.dumps(mapping(half)), half), (json.dumps(mapping(corners)), corners)]
+            hpath = os.path.join(tmp, f'clip_half_{n}.geojson')
+            open(hpath, 'w').write(json.dumps({'type': 'Feature', 'properties': {}, 'geometry': mapping(half)}))
+            wide.append((hpath, half))
+            chosen = (clip_args + wide) if not quick else rng.sample(clip_args, 2) + [wide[n % len(wide)]]
+            for arg, geom in chosen:
                 out = os.path.join(tmp, f'cli_clip_{n}.nc')
                 if os.path.exists(out):
                     os.remove(out)
@@ -366,7 +376,8 @@ def run(ctx):
                 case = {'dataset': label, 'command': ['clip', '<in>', arg if not arg.startswith(tmp) else '<geojson file>', '<out>']}
                 ctx.case((label, 'clip', arg), True)
                 ctx.count('clip:' + ('bounds' if geom.equals(box(x0, y0, x1, y1)) and ',' in arg and '{' not in arg else
-                                     'geojson_file' if arg == gpath else 'geojson_string'))
+                                     'geojson_file' if arg in (gpath, hpath) else 'geojson_string'))
+                ctx.count(f'clip:region bounding box encloses the model:{geom.envelope.covers(box(min(xs), min(ys), max(xs), max(ys)))}')
                 work = tempfile.mkdtemp(prefix='clipwork_', dir=tmp)
                 with warnings.catch_warnings():
                     warnings.simplefilter('ignore')
